@@ -3,7 +3,7 @@ CONSTANTS
   OffsMod = 65536
   Schemes <- SchemesPort
   Atoms <- AtomsPort
-  MaxLen = 7
+  MaxLen = 5
   EmitOn = TRUE
 INVARIANTS EmitURI NoPanicInv LosslessInv PortExactInv ViewsExceptKnownInv
 CHECK_DEADLOCK FALSE
